@@ -27,6 +27,7 @@ def norm_type(t):
         return None
     t = re.sub(r"for<[^>]*> ", '', t)
     t = re.sub(r"'\w+ ", '', t)
+    t = re.sub(r"::<'\w+>", '', t)
     t = re.sub(r"<'\w+>", '', t)
     t = re.sub(r"'\w+, ", '', t)
     return t.strip()
@@ -487,6 +488,8 @@ class Executor:
             return v.pay.get(step[1])
         if k == 'i':
             idx = step[1]
+            if hasattr(v, 'index_step'):
+                return v.index_step(idx)
             elems = self.elems_of(v)
             if isinstance(idx, CI):
                 if idx.v >= len(elems):
@@ -599,6 +602,8 @@ class Executor:
         if tag == 'char':
             return CI(ord(v[1]), 32)
         if tag == 'zst':
+            if v[1].startswith('{closure'):
+                return Closure(norm_type(v[1]), ())
             return FnRef(v[1])
         if tag == 'alloc':
             name = self.prog.allocs.get(v[1])
@@ -606,13 +611,17 @@ class Executor:
                 raise Unsupported('unknown alloc %s' % v[1])
             return Ptr(('S', name))
         if tag == 'named':
-            return self.eval_named_const(v[1], st)
+            return self.eval_named_const(v[1], st, fr)
         raise Unsupported('const %r' % (op,))
 
-    def eval_named_const(self, name, st):
+    def eval_named_const(self, name, st, fr=None):
         # promoted
         m = re.match(r'^(.*)::promoted\[(\d+)\]$', name)
         if m:
+            if fr is not None:
+                direct = '%s::promoted[%s]' % (fr.item.name, m.group(2))
+                if direct in self.prog.promoted:
+                    return self.eval_promoted(m.group(1), int(m.group(2)), st, self.prog.promoted[direct])
             return self.eval_promoted(m.group(1), int(m.group(2)), st)
         # integer MAX/MIN etc
         m = re.match(r'^core::num::<impl (\w+)>::(MAX|MIN|BITS)$', name)
@@ -669,13 +678,13 @@ class Executor:
             return ip == cp
         return cp[:len(ip)] == ip
 
-    def eval_promoted(self, owner, idx, st):
+    def eval_promoted(self, owner, idx, st, item=None):
         # owner uses the call-site naming; definitions use <impl at ..>: match by suffix
-        key = ('P', owner, idx)
+        key = ('P', owner, idx) if item is None else ('P', item.name)
         if key not in self.static_values:
-            cands = []
+            cands = [item] if item is not None else []
             oparts = mirparse.split_top(owner, '::')
-            for n, it in self.prog.promoted.items():
+            for n, it in (self.prog.promoted.items() if item is None else []):
                 m = re.match(r'^(.*)::promoted\[(\d+)\]$', n)
                 if int(m.group(2)) != idx:
                     continue
